@@ -1,0 +1,27 @@
+//go:build verif
+
+package packetlimiter
+
+import (
+	"sync/atomic"
+	"time"
+)
+
+var verifClock atomic.Pointer[func() int64]
+
+// nowNano is the clock of Limiter.Account; the verification harness can replace it.
+func nowNano() int64 {
+	if f := verifClock.Load(); f != nil {
+		return (*f)()
+	}
+	return time.Now().UnixNano()
+}
+
+// VerifSetClock installs f as the clock of Limiter.Account (nil restores the wall clock).
+func VerifSetClock(f func() int64) {
+	if f == nil {
+		verifClock.Store(nil)
+		return
+	}
+	verifClock.Store(&f)
+}
